@@ -29,6 +29,7 @@ UserWhereOf(g)  == IF g = "TU" THEN {} ELSE {"T:Usr"}
 \* ---------------------------------------------------------------- field type classes
 \* text of the field type (spaces removed) and whether it implements a trait, given which of the type
 \* parameters do (a = [T |-> BOOLEAN, U |-> BOOLEAN])
+PhantomAllText(g) == IF g = "TU" THEN "PhantomData<(T,U)>" ELSE "PhantomData<&'a[T;N]>"
 TyText(ty) ==
   CASE ty = "T" -> "T" [] ty = "U" -> "U" [] ty = "WrapT" -> "Wrap<T>" [] ty = "PhantomT" -> "PhantomData<T>"
     [] ty = "PairTU" -> "(T,U)" [] ty = "conc" -> "u8" [] ty = "PhantomAll" -> "PhantomAll" [] ty = "A" -> "TA"
@@ -41,7 +42,7 @@ TraitPath(t) ==
   CASE t = "Debug" -> "::core::fmt::Debug" [] t = "Clone" -> "::core::clone::Clone" [] t = "Copy" -> "::core::marker::Copy"
     [] t = "PartialEq" -> "::core::cmp::PartialEq" [] t = "Eq" -> "::core::cmp::Eq" [] t = "PartialOrd" -> "::core::cmp::PartialOrd"
     [] t = "Ord" -> "::core::cmp::Ord" [] t = "Hash" -> "::core::hash::Hash" [] t = "Default" -> "::core::default::Default"
-    [] t = "Into" -> "::core::convert::Into<TA>" [] OTHER -> t
+    [] t \in {"Into", "Into:A"} -> "::core::convert::Into<TA>" [] t = "Into:B" -> "::core::convert::Into<TB>" [] OTHER -> t
 
 \* ---------------------------------------------------------------- delegated fields
 AllFields(c) == { <<v, i>> : v \in 1..NVariants(c), i \in 1..3 } \cap { <<v, i>> \in (1..NVariants(c)) \X (1..3) : i <= NFields(c, v) }
@@ -69,7 +70,8 @@ Delegated(c, t0) ==
     [] t \in {"PartialOrd", "Ord"} -> { p \in AllFields(c) : F(c, p).ord = Own }
     [] t = "Hash" -> { p \in AllFields(c) : F(c, p).hash = Own }
     [] t = "Default" -> { p \in AllFields(c) : p[1] = DefaultVariant(c) /\ F(c, p).dflt = "none" }
-    [] t = "Into" -> { p \in AllFields(c) : p[2] = IntoField(c, p[1], "A") /\ IntoMode(c, p[1], "A") = "convert" }
+    [] t \in {"Into", "Into:A"} -> { p \in AllFields(c) : p[2] = IntoField(c, p[1], "A") /\ IntoMode(c, p[1], "A") = "convert" }
+    [] t = "Into:B" -> { p \in AllFields(c) : p[2] = IntoField(c, p[1], "B") /\ IntoMode(c, p[1], "B") = "convert" }
     [] OTHER -> {}
 
 \* supertraits demanded of Self by the impl of t
@@ -95,7 +97,8 @@ CustomPred == "T:Cst"
 ModeOf(c, t) == IF t \in DOMAIN c.opts.bounds THEN c.opts.bounds[t] ELSE "auto"
 
 AutoPreds(c, t) ==
-  { TyText(F(c, p).ty) \o ":" \o TraitPath(BoundTrait(c, Primary(c, t))) : p \in Delegated(c, t) }
+  { (IF F(c, p).ty = "PhantomAll" THEN PhantomAllText(c.opts.gen) ELSE TyText(F(c, p).ty))
+      \o ":" \o TraitPath(BoundTrait(c, Primary(c, t))) : p \in Delegated(c, t) }
   \cup { "Self:" \o TraitPath(s) : s \in Supers(c, t) }
 AllPreds(c, t) ==
   LET tp == TypeParamsOf(c.opts.gen) IN { tp[k] \o ":" \o TraitPath(BoundTrait(c, Primary(c, t))) : k \in DOMAIN tp }
@@ -109,6 +112,16 @@ WhereSet(c, t) ==
        [] OTHER -> {})
 
 ImplParams(c) == ImplParamsOf(c.opts.gen)
+
+\* the traits whose impls are emitted, with Into split per target
+EmittedTraits(c) ==
+  ({ c.opts.traits[k] : k \in DOMAIN c.opts.traits } \ {"Into"})
+  \cup { "Into:" \o c.opts.targets[k] : k \in DOMAIN c.opts.targets }
+
+\* the emitted item list: exactly one impl per educed trait and per requested Into target, nothing else
+PropItemSet(c, e) ==
+  /\ SeqToSet(e.trs) = EmittedTraits(c)
+  /\ Len(e.trs) = Cardinality(EmittedTraits(c))
 
 \* one observed impl item: e.tr = trait name, e.generics = sequence of parameter strings, e.where = sequence of
 \* predicate strings (white space removed, in the order written)
